@@ -54,7 +54,11 @@ fn main() {
                 "C08" => c08(tier),
                 "C09" => { let mut rep = Report::new("C09", tier, "model_checking"); rep.rule = "every sequence of storage operations up to the tier's depth over the snapshot alphabet (writes inside and outside the snapshot scope on 2 groups, create/rollback/release/prune, 2 names), both backends + reference model compared on every return value and on the whole read surface; distinct = distinct reference-model states".into(); storex::check_c09(&mut rep, tier != "quick"); rep.finish() }
                 "C10" => { let mut rep = Report::new("C10", tier, "model_checking"); rep.rule = "every sequence of storage operations up to the tier's depth over four colliding alphabets (groups/relays/secrets, messages, dedup records and welcomes, snapshots + OpenMLS writes); memory, SQLite and a plain reference model compared on every return value and on every read method with every pagination triple; distinct = distinct reference-model states".into(); storex::check_c10(&mut rep, tier != "quick"); rep.finish() }
-                "C18" => { let mut rep = Report::new("C18", tier, "model_checking"); rep.rule = "message alphabet with ties on created_at and processed_at: every sequence up to the tier's depth, listings in both sort orders with every (limit, offset) compared with the documented total order; every store/invalidate sequence through update_last_message_if_newer checked for pointer == head of valid messages".into(); storex::check_c18(&mut rep, tier != "quick"); rep.finish() }
+                "C18" => { let mut rep = Report::new("C18", tier, "model_checking"); rep.rule = "message alphabet with ties on created_at and processed_at: every sequence up to the tier's depth, listings in both sort orders with every (limit, offset) compared with the documented total order; every store/invalidate sequence through update_last_message_if_newer checked for pointer == head of valid messages".into(); storex::check_c18(&mut rep, tier != "quick");
+                    let mut jobs = jobs_from(if tier == "quick" { families::c02_quick() } else { families::c02_thorough() });
+                    if tier != "quick" { jobs.extend(jobs_from(families::c02_quick()).into_iter().map(|j| j.backend(lab::Bk::Sqlite))); }
+                    run_e1(jobs, &|cx, rep, _| props_e1::check_c18_pointer(cx, rep), &mut rep);
+                    rep.finish() }
                 "C11" => c11check(tier),
                 "C14" => c14(tier),
                 "C16" => c16check(tier),
@@ -63,6 +67,37 @@ fn main() {
             }
         }
         "bench" => { bench_storex(); 0 }
+        "trace" => {
+            // mdkv trace <scenario-name> <member> <pool indices / m / c / r ...>  (debugging aid)
+            let mut all = families::c01_thorough();
+            all.extend(families::c02_thorough());
+            all.extend(families::c08_quick());
+            all.extend(families::c03_quick());
+            let sc = all.into_iter().find(|(s, _)| s.name == args[2]).expect("scenario").0;
+            let bk = if std::env::var("VERIF_SQLITE").is_ok() { lab::Bk::Sqlite } else { lab::Bk::Memory };
+            let w = scenario::build_world(&sc, bk).expect("world");
+            for (i, p) in w.pool.iter().enumerate() {
+                println!("pool[{i}] {} ts={} node={:?}", p.label, p.ts, p.node);
+            }
+            let mut c = w.initial[&args[3]].fork();
+            for a in &args[4..] {
+                let act = match a.as_str() {
+                    "m" => explore::Action::MergeOwn,
+                    "c" => explore::Action::ClearPending,
+                    "r" => explore::Action::Restart,
+                    x => explore::Action::Deliver(x.parse().unwrap()),
+                };
+                let out = explore::step(&w, &c, act);
+                c = out.client;
+                let g = c.group_obs(&w.gid);
+                println!("{} -> {}", act.label(&w), out.result);
+                if let Some(g) = g {
+                    println!("   pointer_mismatch={:?}", props_e1::pointer_mismatch(&g));
+                    println!("   epoch={:?} state={} pending={} ptr={} msgs={:?}", g.mls.as_ref().map(|m| m.epoch), g.record_state, g.pending_commit, g.record["last_message_id"], g.messages.iter().map(|m| format!("{}:{}:e{}", m["content"].as_str().unwrap_or(""), m["state"].as_str().unwrap_or(""), m["epoch"])).collect::<Vec<_>>());
+                }
+            }
+            0
+        }
         "replay" => {
             if args.len() < 4 {
                 usage();
@@ -361,7 +396,7 @@ fn c16check(tier: &str) -> i32 {
         j.with_local_ops = false;
         j.prejoin = true;
         j.world_hook = Some(c16_hook);
-        j.max_states = if tier == "quick" { 3000 } else { 40000 };
+        j.max_states = if tier == "quick" { 1500 } else { 40000 };
         if tier != "quick" {
             jobs.push(j.clone().backend(lab::Bk::Sqlite));
         }
